@@ -755,24 +755,27 @@ class Mps(MatrixProduct):
             
             evolved_dt = 0
             new_mps = self
+            guess_dt = self.evolve_config.guess_dt
 
             while True:
-                dt = min_abs(new_mps.evolve_config.guess_dt, evolve_dt-evolved_dt)
-                logger.debug(f"guess_dt: {new_mps.evolve_config.guess_dt}, try time step size: {dt}")
-                new_mps, error = sub_time_step_evolve(new_mps, dt, evolved_dt)    
-                p = (new_mps.evolve_config.adaptive_rtol / (error + 1e-30)) ** (1/rk_config.order[0])
+                dt = min_abs(guess_dt, evolve_dt-evolved_dt)
+                logger.debug(f"guess_dt: {guess_dt}, try time step size: {dt}")
+                # a rejected sub-step must be discarded: keep `new_mps` until the trial is accepted
+                trial_mps, error = sub_time_step_evolve(new_mps, dt, evolved_dt)
+                p = (self.evolve_config.adaptive_rtol / (error + 1e-30)) ** (1/rk_config.order[0])
                 logger.debug(f"RKsolver:{rk_config.method} relative error: {error}, enlarge p parameter: {p}")
                 
                 if p < p_restart:
                     # not accurate, will restart
-                    new_mps.evolve_config.guess_dt = dt * max(p_min, p)
+                    guess_dt = dt * max(p_min, p)
                     logger.debug(
-                        f"evolution not converged, new guess_dt: {new_mps.evolve_config.guess_dt}"
+                        f"evolution not converged, new guess_dt: {guess_dt}"
                     )
                 else:
+                    new_mps = trial_mps
                     if xp.allclose(dt+evolved_dt, evolve_dt):
                         new_mps.evolve_config.guess_dt = min_abs(
-                            dt * p, new_mps.evolve_config.guess_dt
+                            dt * p, guess_dt
                         )
                         # normal exit
                         logger.debug(
@@ -780,10 +783,11 @@ class Mps(MatrixProduct):
                         )
                         break
                     else:
-                        new_mps.evolve_config.guess_dt *= min(p, p_max)
+                        guess_dt *= min(p, p_max)
+                        new_mps.evolve_config.guess_dt = guess_dt
                         evolved_dt += dt
                         logger.debug(
-                            f"evolution converged, new guess_dt: {new_mps.evolve_config.guess_dt}"
+                            f"evolution converged, new guess_dt: {guess_dt}"
                         )
                         logger.debug(f"sub-step {dt} further, remaining: {evolve_dt-evolved_dt}")
         else:
